@@ -603,6 +603,11 @@ func runRepro(o *Out, _ *rand.Rand, thorough bool) {
 		}
 		c.Solve = &CSolve{Runs: 1, Starts: rng.Intn(2), Det: rng.Intn(2) == 0, Iters: 300 + rng.Intn(500),
 			Mode: []string{"single", "parallel-norestart", "parallel"}[ci%3]}
+		if ci%3 == 1 {
+			// several random start solutions (built by helper goroutines of NewParallelSolver): their seeds must not depend on
+			// which helper gets to the shared empty solution first
+			c.Solve.Starts = 2 + rng.Intn(3)
+		}
 		if replayFile != "" {
 			c = loadReplayCase(replayFile)
 			ncases = 1
@@ -647,6 +652,12 @@ func runRepro(o *Out, _ *rand.Rand, thorough bool) {
 				nextroute.VerifHook = scheduleHook(map[string]time.Duration{"seq_perm": 40 * time.Microsecond}, nil)
 			case 2:
 				nextroute.VerifHook = scheduleHook(map[string]time.Duration{"worker_send": 2 * time.Millisecond}, nil)
+			}
+			if rep%3 != 0 && c.Solve.Starts >= 2 {
+				// whoever copies a solution first is held back longest (the first eight copies): copies that are made one
+				// after the other by one goroutine are only delayed, copies made by goroutines that race for the same source
+				// solution change places
+				bt.model.AddSolutionObserver(&copyDelay{step: time.Duration(100*(rep%3)) * time.Microsecond})
 			}
 			var sols []nextroute.Solution
 			var serr error
@@ -780,4 +791,19 @@ func solveSingle(model nextroute.Model, iters int, slowConsumer bool) (sols []ne
 		sols = append(sols, s.Solution)
 	}
 	return sols, nil, nil
+}
+
+// copyDelay: a solution observer that only sleeps when a solution is about to be copied — the k-th copy (k < 8) sleeps
+// (8-k) steps.
+type copyDelay struct {
+	recorder
+	n    atomic.Int64
+	step time.Duration
+}
+
+func (d *copyDelay) OnCopySolution(nextroute.Solution) {
+	k := d.n.Add(1)
+	if k <= 8 {
+		time.Sleep(time.Duration(9-k) * d.step)
+	}
 }
